@@ -55,8 +55,9 @@ fn gen_expr(r: &mut Rng, leaves: &[Node], depth: u32, allow_group: bool) -> Expr
             Box::new(gen_expr(r, leaves, depth - 1, allow_group)),
             Box::new(gen_expr(r, leaves, depth - 1, allow_group)),
         ),
-        7 if allow_group && leaves.len() >= 2 => {
-            let k = r.range(2, (leaves.len() as u64).min(4));
+        7 if allow_group && { let mut d = leaves.to_vec(); d.sort(); d.dedup(); d.len() >= 2 } => {
+            let distinct = { let mut d = leaves.to_vec(); d.sort(); d.dedup(); d.len() as u64 };
+            let k = r.range(2, distinct.min(4));
             let mut ns: Vec<Node> = Vec::new();
             while (ns.len() as u64) < k { let n = *r.pick(leaves); if !ns.contains(&n) { ns.push(n); } }
             Expr::Group(ns)
@@ -200,6 +201,12 @@ pub struct Judge {
     pub ran_in_epoch: HashSet<(Node, u64)>,
     pub violations_c01: Vec<String>,
     pub violations_c03: Vec<String>,
+    /// instances of the recorded finding `c03_projection_changeback` (see known_findings.txt)
+    pub known_c03_changeback: Vec<String>,
+    /// every value each node's executor returned, with the step at which it did
+    pub done_hist: HashMap<Node, Vec<(usize, i64)>>,
+    /// step of the last execution of each node
+    pub last_run: HashMap<Node, usize>,
     pub execs: u64, pub repairs_without_exec: u64, pub queries: u64,
 }
 impl Judge {
@@ -227,6 +234,9 @@ impl Judge {
                 }
             }
         }
+        // values returned in this op / before this op
+        let mut done_now: HashMap<Node, i64> = HashMap::new();
+        for e in &res.events { if let Event::Done { node, value } = e { done_now.insert(*node, *value); } }
         // C03: justification, judged against the from-scratch values of the *current* inputs
         for n in &order {
             if n.kind == Kind::External {
@@ -238,12 +248,26 @@ impl Judge {
             if self.computed.contains(n) {
                 let prev = self.prev_reads.get(n).cloned().unwrap_or_default();
                 let changed = prev.iter().any(|(d, seen)| oracle(prog, &self.inputs, &self.ext_seen, *d, 0) != Some(*seen));
-                if !changed {
+                // recorded finding: backward projection re-runs a projection whenever a
+                // firewall/projection it reads changed relative to that dependency's own previous
+                // run, even if its value is again the one the projection saw at its last run
+                // (the dependency changed and changed back while the projection was not re-run)
+                let since = self.last_run.get(n).copied().unwrap_or(0);
+                let changeback = n.kind == Kind::Projection && prev.iter().any(|(d, seen)| {
+                    matches!(d.kind, Kind::Firewall | Kind::Projection)
+                        && (done_now.get(d).is_some_and(|now| now != seen)
+                            || self.done_hist.get(d).is_some_and(|h| h.iter().any(|(st, v)| *st > since && v != seen)))
+                });
+                if !changed && changeback {
+                    self.known_c03_changeback.push(format!("step {step}: projection {} re-executed by backward projection; its reads {:?} are unchanged since its own last run", n.short(), prev.iter().map(|(d, v)| (d.short(), *v)).collect::<Vec<_>>()));
+                } else if !changed {
                     self.violations_c03.push(format!("step {step}: {} re-executed although none of its previous reads {:?} changed", n.short(), prev.iter().map(|(d, v)| (d.short(), *v)).collect::<Vec<_>>()));
                 }
             }
         }
         for n in &order { self.computed.insert(*n); }
+        for (n, v) in done_now { self.done_hist.entry(n).or_default().push((step, v)); }
+        for n in &order { self.last_run.insert(*n, step); }
         for (n, rs) in cur_reads { if order.contains(&n) { self.prev_reads.insert(n, rs); } }
         // C01: every value handed out equals the from-scratch value
         for e in &res.events {
